@@ -119,8 +119,16 @@ def run(rep, pdb, tier):
         inloop = [e for e in effs if e.loops]
         pushes = [e for e in inloop if e.kind == "push"]
         incs = [e for e in inloop if e.kind == "assignop" and e.op == "+=" and e.value == num(1)]
-        ok = len(pushes) == 3 and len(incs) == 1 and len({id(e.loops[0]) for e in pushes + incs}) == 1 and all(len(e.loops) == 1 for e in pushes + incs)
+        ok = len(pushes) == 3 and len(incs) <= 1 and len({id(e.loops[0]) for e in pushes + incs}) == 1 and all(len(e.loops) == 1 for e in pushes + incs)
         det = "pushes=%d increments=%d" % (len(pushes), len(incs))
+        counted_by_len = ok and not incs
+        if counted_by_len:
+            # nonzero taken as the length of one of the three vectors after the loop instead of a running counter
+            class _Z:
+                pass
+            z = _Z()
+            z.target, z.node, z.loops = None, pushes[0].node, pushes[0].loops
+            incs = [z]
         if ok:
             lp = pushes[0].loops[0]
             tv = ("var", lp["pat"]["v"]) if lp["pat"].get("k") == "Bind" else None
@@ -128,19 +136,29 @@ def run(rep, pdb, tier):
             drains = it[0] == "call" and str(it[1]).endswith("drain") and it[2] == P(2)
             comp = {e.value[2] if e.value[0] == "field" and e.value[1] == tv else None: e.target for e in pushes}
             # each push is unconditional inside the loop body (no enclosing if)
-            uncond = all(not [a for a in ancestors(e.node) if a.get("k") == "If" and any(x is lp for x in ancestors(a))] for e in pushes + incs)
+            uncond = all(not [a for a in ancestors(e.node) if a.get("k") == "If" and any(x is lp for x in ancestors(a))] for e in pushes + ([] if counted_by_len else incs))
             tail = fn["body"].get("expr")
             sp = ctx.term(tail) if tail is not None else None
             sb = ctx.binds.get(sp[1]) if sp is not None and sp[0] == "var" else None
             st = ctx.term(sb.init) if sb is not None and sb.init is not None else None
             fields = dict(st[2:]) if st is not None and st[0] == "struct" else {}
-            okf = fields.get("rows") == P(0) and fields.get("cols") == P(1) and fields.get("nonzero") == incs[0].target and \
+            nzf = fields.get("nonzero")
+            if counted_by_len:
+                nzd = ctx.def_term(nzf) if nzf is not None and nzf[0] == "var" and ctx.def_term(nzf) is not None else nzf
+                nz_ok = nzd is not None and nzd[0] == "len" and nzd[1] in (comp.get("0"), comp.get("1"), comp.get("2"))
+            else:
+                nz_ok = nzf == incs[0].target
+            okf = fields.get("rows") == P(0) and fields.get("cols") == P(1) and nz_ok and \
                 fields.get("val") == comp.get("2") and fields.get("row_index") == comp.get("0")
             cs = [e for e in effs if e.kind == "assign" and e.target == ("field", sp, "col_start")] if sp else []
             okc = len(cs) == 1 and cs[0].value[0] == "call" and str(cs[1 - 1].value[1]).endswith("col_start_from_index") and cs[0].value[2] == sp and \
                 cs[0].value[3] == ("call", "vector::Vector<T>::create", comp.get("1"))
-            nz0 = ctx.binds.get(incs[0].target[1])
-            okn = nz0 is not None and nz0.init is not None and ctx.term(nz0.init) == num(0)
+            if counted_by_len:
+                okn = all((lambda tb: tb is not None and tb.init is not None and ctx.term(tb.init)[0] == "call" and str(ctx.term(tb.init)[1]).endswith("::new") and len(ctx.term(tb.init)) == 2)(
+                    ctx.binds.get(t_[1]) if t_ is not None and t_[0] == "var" else None) for t_ in comp.values())      # the three vectors start empty
+            else:
+                nz0 = ctx.binds.get(incs[0].target[1])
+                okn = nz0 is not None and nz0.init is not None and ctx.term(nz0.init) == num(0)
             ok = drains and set(comp) == {"0", "1", "2"} and uncond and okf and okc and okn
             det = "drains the argument=%s components .0/.1/.2 each pushed once=%s unconditional=%s struct fields=%s col_start from col_index=%s nonzero starts at 0=%s" % (
                 drains, set(comp) == {"0", "1", "2"}, uncond, okf, okc, okn)
